@@ -425,7 +425,7 @@ def run(ctx):
               why="form=%s base=buffer[0..]:%s k=%s W=%s (%s)" % (sr.kind, sr.base_ok, sr.k, G.show(sr.W)[:80] if sr.W else None, sr.how[:300]))
     ctx.check(sr.pred_ok, "W", "predicate", "a window is a hit iff its 4 bytes are the little-endian header magic 0xE85250D6", A.site(), how=sr.how[:300], why=sr.how[:400])
 
-    if sr.call is not None and "find_map" in (sr.kind or "") and sr.pred_ok and ok_w:
+    if sr.call is not None and sr.pred_ok and ok_w:
         # the closure answers Some(enumerate index) exactly for an accepted window (checked above), so the payload of
         # find_map's answer is an index of windows(k): i + k <= len of the scanned slice.  PANIC's discharges may use it.
         raw_call = None
